@@ -355,8 +355,29 @@ class CsvParseOp(Op):
         return cases
 
 
+class SearchDetectOp(Op):
+    """Survey._redirect_is_search_itext's detection of the search() appearance against Model/Search.v"""
+    name = "S.is_search"
+    imports = ["PX.Model.Search"]
+    fn = "fun a => if is_search a then [49%N] else [48%N]"
+    in_ty = "list N"
+    n_quick, n_thorough = 400, 4000
+
+    def generate(self, rng, n):
+        import types
+        from pyxform.survey import Survey
+        atoms = ["search(", ")", "search", "(", "'f'", "minimal", "quick", " ", "\n", "search('fruits')", "research('x')", "Search(", "search (", ",", "a", "w1", "likert", "search()", "search(\n)", "é"]
+        cases = []
+        for _ in range(n):
+            a = "".join(rng.choice(atoms) for _ in range(rng.randint(0, 5)))
+            el = types.SimpleNamespace(control={"appearance": a}, itemset="l", name="q", choices=types.SimpleNamespace(used_by_search=False, options=[], name="l"))
+            exp = "1" if Survey._redirect_is_search_itext(None, el) else "0"
+            cases.append({"coq": cstr(a), "expected": exp, "desc": {"appearance": a}, "class": "search" if exp == "1" else "not search", "nontrivial": "search" in a})
+        return cases
+
+
 def ops(tier):
-    return [SplitextOp(), StaticInstanceOp(), RegistryOp(), ItemsetOp(), CsvOp(), CsvParseOp()]
+    return [SplitextOp(), StaticInstanceOp(), RegistryOp(), ItemsetOp(), CsvOp(), CsvParseOp(), SearchDetectOp()]
 
 
 # ---- direct oracle ---------------------------------------------------------------------------------------------
